@@ -27,6 +27,12 @@ class KernelX(Kernel):
         if isinstance(node, ast.BoolOp):
             cs = [self.cond(v, st, quiet) for v in node.values]
             if isinstance(node.op, ast.And):
+                # conjuncts that are constantly true do not matter
+                nontrivial = [c for c in cs if not (c.tf == [] and c.ff == [Lin.const(-1)])]
+                if len(nontrivial) == 1:
+                    return nontrivial[0]
+                if any(c.tf == [Lin.const(-1)] for c in cs):
+                    return Cond([Lin.const(-1)], [], None, True)
                 tf = None
                 if any(c.tf is not None for c in cs):
                     tf = [l for c in cs if c.tf for l in c.tf]
@@ -57,6 +63,11 @@ class KernelX(Kernel):
                 if isinstance(a, NoneV) and isinstance(b, NoneV):
                     return Cond([], [Lin.const(-1)], None, True) if isinstance(op, ast.Is) else Cond([Lin.const(-1)], [], None, True)
                 return Cond(None, None, None, True)
+            if isinstance(a, Int) and isinstance(b, Int) and (a.lin - b.lin).is_const():
+                d = (a.lin - b.lin).c
+                truth = {ast.Lt: d < 0, ast.LtE: d <= 0, ast.Gt: d > 0, ast.GtE: d >= 0, ast.Eq: d == 0, ast.NotEq: d != 0}.get(type(op))
+                if truth is not None:
+                    return Cond([], [Lin.const(-1)], None, True) if truth else Cond([Lin.const(-1)], [], None, True)
             if isinstance(a, Int) and isinstance(b, Int):
                 x, y = a.lin, b.lin
                 if isinstance(op, ast.Lt):
@@ -170,8 +181,11 @@ class KernelX(Kernel):
             s = Lin.sym(fresh('len'))
             st.facts.add_ge(s)
             return Int(s)
+        if isinstance(node.func, ast.Name) and isinstance(st.env.get(cn), Opaque) and len(args) == 1 and \
+                st.env[cn].tag in ('attr:type', 'attr:float32', 'attr:float64') and not isinstance(args[0], Int):
+            return args[0] if isinstance(args[0], Arr) else Opaque('float')
         if cn in INT_CASTS or (isinstance(node.func, ast.Name) and isinstance(st.env.get(cn), Opaque)
-                               and st.env[cn].tag.startswith('dtype') and len(args) == 1):
+                               and (st.env[cn].tag.startswith('dtype') or st.env[cn].tag.startswith(('attr:int', 'attr:uint', 'attr:type'))) and len(args) == 1):
             a = args[0] if args else Int(0)
             if isinstance(a, Int):
                 return a
@@ -207,7 +221,8 @@ class KernelX(Kernel):
         if cn in ALLOC_LIKE and args:
             a = args[0]
             if isinstance(a, Arr):
-                return a.with_dims(a.dims) if a.dims is not None else self._like(a, st)
+                keep = a.tags if cn in ('np.rint', 'np.floor', 'np.ceil', 'np.copy', 'np.ascontiguousarray', 'np.asarray', 'np.asanyarray') else {}
+                return a.with_dims(a.dims, tags=keep) if a.dims is not None else self._like(a, st)
             if cn in ('np.float32', 'np.float64'):
                 return Opaque('float')
             return Opaque(cn)
